@@ -19,6 +19,7 @@ import (
 	"strconv"
 	"strings"
 	"sync"
+	"sync/atomic"
 	"testing"
 	"time"
 )
@@ -296,6 +297,51 @@ func vAwait(done <-chan struct{}, d time.Duration) bool {
 	default:
 		return false
 	}
+}
+
+// ---------------------------------------------------------------- load-aware time bounds
+
+// vTicks is advanced by a goroutine that sleeps 5 ms at a time: on a starved machine it advances more
+// slowly than the wall clock, and so do the bounds built on it.
+var (
+	vTicks     int64
+	vTicksOnce sync.Once
+)
+
+// vBound is a time bound that only expires when BOTH the wall clock and this process's own progress
+// (heartbeat ticks at >= 60 % of the nominal rate) say that d has passed; after 8*d of wall time without
+// that progress it reports "starved" (no verdict) instead of "expired".
+type vBound struct {
+	t0    time.Time
+	tick0 int64
+	d     time.Duration
+}
+
+func vNewBound(d time.Duration) *vBound {
+	vTicksOnce.Do(func() {
+		go func() {
+			for {
+				time.Sleep(5 * time.Millisecond)
+				atomic.AddInt64(&vTicks, 1)
+			}
+		}()
+	})
+	return &vBound{t0: time.Now(), tick0: atomic.LoadInt64(&vTicks), d: d}
+}
+
+func (b *vBound) state() (expired, starved bool) {
+	el := time.Since(b.t0)
+	if el < b.d {
+		return false, false
+	}
+	need := int64(float64(b.d/(5*time.Millisecond)) * 0.6)
+	if atomic.LoadInt64(&vTicks)-b.tick0 >= need {
+		return true, false
+	}
+	if el >= 8*b.d {
+		return true, true
+	}
+	return false, false
 }
 
 // vDialer is sarama's default dialer plus SO_LINGER 0: client connections are reset on Close
